@@ -249,6 +249,24 @@ func mapComps(vs []*Val, f func(xs []*Val) *Val) *Val {
 
 func (p *Program) call(e *node) *Val {
 	if f, ok := p.funcs[e.s]; ok {
+		if ovs := p.overload[e.s]; len(ovs) > 1 {
+			// overload resolution: same arity and the parameter types of the (static)
+			// argument types; the last definition is the fallback
+			for _, g := range ovs {
+				if len(g.params) != len(e.kids) {
+					continue
+				}
+				match := true
+				for i, prm := range g.params {
+					if typeKey(p.staticType(e.kids[i])) != typeKey(prm.t) {
+						match = false
+					}
+				}
+				if match {
+					f = g
+				}
+			}
+		}
 		return p.callUser(f, e.kids)
 	}
 	switch e.s {
